@@ -44,23 +44,35 @@ def uses_of(fn, o):
     return out
 
 
-def is_len_of(fn, o, local_rx):
-    """operand o is `x.len()` where x is a local matching local_rx (by number, '_5') or carrying a matching variable name"""
-    for c in fn.calls(r"(Bytes|BytesMut)::len$"):
+def _is_input(fn, l):
+    """local l is a parameter of the body, or (coroutine / closure) a copy of a captured argument"""
+    if 1 <= l <= fn.argc:
+        return True
+    d = fn.single_def(l)
+    if d and d[1] == "assign" and d[2]["rv"]["r"] == "use":
+        p = d[2]["rv"]["o"].get("c") or d[2]["rv"]["o"].get("m")
+        return bool(p) and p[0] == 1 and len(p) >= 2 and p[1].startswith(".")
+    return False
+
+
+def is_len_of(fn, o, local_rx=None):
+    """operand o is `x.len()` where x is the `bytes::Bytes` argument of the body (the payload handed in by the caller);
+    found by type and role, not by name"""
+    for c in fn.calls(r"Bytes::len$"):
         if c.dest[0] not in slice_locals(fn, o, strict=True):
             continue
         l = ref_local(fn, c.args[0])
-        if l is not None and (re.match(local_rx, "_%d" % l) or re.match(local_rx, fn.names.get(l) or "")):
+        if l is not None and fn.locals[l] == "bytes::Bytes" and _is_input(fn, l):
             return True
     return False
 
 
 def bound_kind(fn, o):
     us = uses_of(fn, o)
-    names = {fn.names.get(l) for l in slice_locals(fn, o, strict=True)}
-    if any(u.endswith("@Identity.0") for u in us) or "payload_size" in names:
+    sl = slice_locals(fn, o, strict=True)
+    if any(u.endswith("@Identity.0") for u in us) or any(fn.locals[l] == "usize" and _is_input(fn, l) for l in sl):
         return "identity"
-    if any(u.endswith("@Some.0") for u in us) or "max_size" in names:
+    if any(u.endswith("@Some.0") for u in us):
         return "varint"
     return None
 
@@ -78,7 +90,7 @@ def size_guard(ctx, fx, fn, rule, name, sites, payload_rx, want):
     none_edges = set()
     if want == "varint":
         for sw in fn.discr_switches():
-            if sw[2] and sw[2].endswith("option::Option") and ("max_size" in {fn.names.get(sw[1][0])} or any(u.endswith("@UnsignedVarint.0") for u in uses_of(fn, {"c": [sw[1][0]]})) or "".join(map(str, sw[1][1:])).endswith("@UnsignedVarint.0")):
+            if sw[2] and sw[2].endswith("option::Option") and ((fn.locals[sw[1][0]].startswith("std::option::Option<usize>") and _is_input(fn, sw[1][0])) or any(u.endswith("@UnsignedVarint.0") for u in uses_of(fn, {"c": [sw[1][0]]})) or "".join(map(str, sw[1][1:])).endswith("@UnsignedVarint.0")):
                 for lab in fn.variant_edges(sw, "None"):
                     none_edges.add((sw[0], lab))
     r = fn.reach([fn.entry], cut=good | none_edges)
@@ -217,7 +229,7 @@ def r04_2(ctx, fx):
             # the payload passed on is the function's argument
             for c in [c for c in fn.calls(r"Substream::send_(identity|unsigned_varint)_payload$") if c.node in ida | vaa]:
                 idx = 2 if c.name.endswith("identity_payload") else 1
-                b = [l for l, n in fn.names.items() if n == "bytes"]
+                b = [l for l, t in enumerate(fn.locals) if t == "bytes::Bytes" and fn.names.get(l)]
                 ok = bool(b) and bool(set(b) & slice_locals(fn, c.args[idx]))
                 ctx.ob("R04.2", "send_framed/%s/%s-gets-the-caller's-bytes" % (tname, c.name.rsplit("::", 1)[-1]), ok, site=fn.site(c.node), cfg=fx.cfg)
                 bidx = 1 if c.name.endswith("identity_payload") else 2
